@@ -247,6 +247,7 @@ def search(run, deep):
     """property-level oracle on the implementation alone"""
     n = run.scale(1, 5) if not deep else 5
     search_atten(run)
+    search_state(run)
     search_clamp(run)
     search_layered(run)
     search_forms(run)
@@ -278,6 +279,92 @@ def search(run, deep):
             if float(ice.index(hi + 1)) != float(ice.index_above) or float(ice.index(lo - 1)) != float(ice.index_below):
                 run.fail_input("outside", {"ice": name, "params": [ice.n0, ice.k, ice.a, lo, hi]},
                                what="index outside the valid range is not the declared index")
+
+
+def search_state(run):
+    """state across calls / caller-owned containers: an ice object re-parameterised in place behaves like a fresh one with
+    the same parameters; a LayeredIce does not follow later changes of the list it was built from"""
+    from pyrex.ice_model import AntarcticIce, GreenlandIce, UniformIce
+    from pyrex.custom.layered_ice import LayeredIce
+    for rep in range(run.scale(6, 60)):
+        cls = run.rng.choice([AntarcticIce, GreenlandIce])
+        ice = cls()
+        lo, hi = ice.valid_range
+        zs = [lo, hi, lo - 7.0, hi + 3.0] + [run.rng.uniform(lo, hi) for _ in range(4)]
+        # use it first (anything memoised would be filled now) ...
+        _ = [float(ice.index(z)) for z in zs]; _ = float(ice.depth_with_index(float(ice.index(zs[4]))))
+        _ = float(ice.index_above), float(ice.index_below)
+        # ... then re-parameterise the SAME object
+        steps = []
+        for _k in range(run.rng.randint(1, 3)):
+            name = run.rng.choice(["n0", "k", "a", "valid_range"])
+            if name == "n0":
+                val = run.rng.uniform(1.5, 1.9)
+            elif name == "k":
+                val = run.rng.uniform(0.2, 0.6)
+            elif name == "a":
+                val = 10 ** run.rng.uniform(-2.3, -1.5)
+            else:
+                val = (-run.rng.uniform(500, 3000), 0)
+            setattr(ice, name, val)
+            steps.append([name, val if name != "valid_range" else list(val)])
+        fresh = cls(n0=ice.n0, k=ice.k, a=ice.a, valid_range=ice.valid_range)
+        lo, hi = ice.valid_range
+        zs = [lo, hi, lo - 7.0, hi + 3.0] + [run.rng.uniform(lo, hi) for _ in range(4)]
+        ns = [float(fresh.index(z)) for z in zs[4:]] + [float(fresh.index(hi)) - 0.01, float(fresh.index(lo)) + 0.01]
+        with np.errstate(all="ignore"):
+            got = ([float(ice.index(z)) for z in zs], [float(v) for v in ice.index(np.array(zs))],
+                   [float(ice.depth_with_index(n)) for n in ns], float(ice.index_above), float(ice.index_below),
+                   [float(ice.gradient(z)[2]) for z in zs])
+            exp = ([float(fresh.index(z)) for z in zs], [float(v) for v in fresh.index(np.array(zs))],
+                   [float(fresh.depth_with_index(n)) for n in ns], float(fresh.index_above), float(fresh.index_below),
+                   [float(fresh.gradient(z)[2]) for z in zs])
+        run.case((cls.__name__, "reparameterised", tuple(map(str, steps))))
+        run.count("state_reparameterised")
+        if got != exp:
+            run.fail_input("ice-reparameterised", {"class": cls.__name__, "steps": steps, "depths": zs, "indices": ns},
+                           observed=got, expected=exp,
+                           what="an ice model re-parameterised in place differs from a fresh model with the same parameters")
+    for rep in range(run.scale(6, 60)):
+        bounds = sorted({round(-run.rng.uniform(10, 2000), 1) for _ in range(run.rng.randint(2, 4))} | {0.0}, reverse=True)
+        mk = lambda i: UniformIce(index=1.3 + 0.1 * i, valid_range=(bounds[i + 1], bounds[i]), index_above=None, index_below=None)
+        layers = [mk(i) for i in range(len(bounds) - 1)]
+        run.rng.shuffle(layers)
+        mine = list(layers)              # the caller's own list
+        li = LayeredIce(mine)
+        zs = list(bounds) + [b + 1e-9 for b in bounds] + [run.rng.uniform(bounds[-1] - 5, 5) for _ in range(5)]
+
+        def probe():
+            out = []
+            for z in zs:
+                try:
+                    out.append(("layer", li.layers.index(li.layer_at_depth(z)), float(li.index(z)), bool(li.contains((0, 0, z)))))
+                except (ValueError, IndexError) as e:
+                    try:
+                        out.append((type(e).__name__, None, float(li.index(z)), bool(li.contains((0, 0, z)))))
+                    except (ValueError, IndexError) as e2:
+                        out.append((type(e).__name__, None, type(e2).__name__, None))
+            return out
+        before = probe()
+        order_before = list(mine)
+        action = run.rng.choice(["append", "clear", "reverse", "pop", "replace"])
+        if action == "append":
+            mine.append(UniformIce(index=2.0, valid_range=(bounds[-1] - 300, bounds[-1]), index_above=None, index_below=None))
+        elif action == "clear":
+            del mine[:]
+        elif action == "reverse":
+            mine.reverse()
+        elif action == "pop":
+            mine.pop()
+        else:
+            mine[0] = UniformIce(index=2.2, valid_range=mine[0].valid_range, index_above=None, index_below=None)
+        after = probe()
+        run.case(("layered-callers-list", action, tuple(bounds)))
+        run.count("state_layered_callers_list_" + action)
+        if after != before:
+            run.fail_input("layered-callers-list", {"bounds": bounds, "action": action, "depths": zs}, observed=after[:6],
+                           expected=before[:6],
+                           what="a LayeredIce changed when the list it was built from was modified afterwards (%s)" % action)
 
 
 def search_clamp(run):
